@@ -157,15 +157,15 @@ func ParseStreamCallback variant stoponerr
 func ParseStreamCallback variant loaddb
   bind callback = utils.LoadDatabaseFromStream$1
   props C08 C09 C10 C01
-  requires @wfdb WfDB(captured(callback, nodeMap))
+  requires @wfdb WfDBI(captured(callback, nodeMap))
   modifies mapof(captured(callback, nodeMap))
   modifies ghost(cbLen, cbErr, cbNode, cbStop, cbRet, cbLineNo, cbLine, cbHeader, cbElems, cbNElems, scRd, scPos, privLo, evOf)
-  ensures @wfdb [C08 C01] WfDB(captured(callback, nodeMap)) && captured(callback, nodeMap) == old(captured(callback, nodeMap))
+  ensures @wfdb [C08 C01] WfDBI(captured(callback, nodeMap)) && captured(callback, nodeMap) == old(captured(callback, nodeMap))
   ensures @fails-on-malformed [C09] result == nil ==> (forall i int :: {RdLine(rd, i)} 0 <= i && i < RdN(rd) ==> !Malformed(rd, i, cc))
   ensures @fails-on-unreadable [C10] result == nil ==> !RdFailed(rd)
   ensures @quotes-first [C09] forall j int :: {cbErr[j]} old(cbLen) <= j && j < cbLen && cbErr[j] != nil ==> j == cbLen - 1 && result == cbErr[j] && (forall i2 int :: {RdLine(rd, i2)} 0 <= i2 && i2 < cbLineNo[j] - 1 ==> !Malformed(rd, i2, cc))
   loop 1 {
-    invariant @wfdb WfDB(captured(callback, nodeMap)) && captured(callback, nodeMap) == old(captured(callback, nodeMap))
+    invariant @wfdb WfDBI(captured(callback, nodeMap)) && captured(callback, nodeMap) == old(captured(callback, nodeMap))
     invariant @clean forall i int :: {RdLine(rd, i)} 0 <= i && i < lineNumber ==> !Malformed(rd, i, cc)
     invariant @noerr forall j int :: {cbErr[j]} old(cbLen) <= j && j < cbLen ==> cbErr[j] == nil
     invariant @own node != nil ==> arr(node.Elements) >= privLo && (node.Metadata != nil ==> ref(node.Metadata) >= privLo && arr(*node.Metadata) >= privLo)
